@@ -171,9 +171,14 @@ Emitted(o, p, e) ==
     [] e.t = "DeliverAction" ->
          IF p < 0 \/ o.meta.entry = 0 THEN o
          ELSE LET op == OpAt(o, p)
-                  o1 == Chk(o, op.op = "send", "C03", "ScriptFollowed",
+                  o1 == Chk(o, op.op \in {"send", "retsend"}, "C03", "ScriptFollowed",
                             <<"send executed where the script has", op.op, p>>)
-              IN [o1 EXCEPT !.sent[p][e.to] = Append(@, e.m), !.pc[p] = PcAt(o, p) + 1]
+                  \* what leaves the sender is what the script says it sends (bytes included)
+                  o2 == IF op.op \in {"send", "retsend"} /\ Closed(op.val)
+                        THEN Chk(o1, e.m = Eval(op.val, <<>>), "C06", "ContentPreserved",
+                                 <<"process", p, "sent", e.m, "the script sends", Eval(op.val, <<>>)>>)
+                        ELSE o1
+              IN [o2 EXCEPT !.sent[p][e.to] = Append(@, e.m), !.pc[p] = PcAt(o, p) + 1]
     [] e.t = "EffectRequest" ->
          IF o.meta.entry = 0 THEN o
          ELSE Chk(o, OpAt(o, e.p).op \in {"open", "use", "close"}, "C03", "ScriptFollowed",
@@ -427,7 +432,14 @@ EndRecord(o, r) ==
             THEN Chk(o, r.outcome.t = "value" /\ r.outcome.v = o.meta.expected_outcome,
                      "C06", "ContentPreserved", <<r.outcome, o.meta.expected_outcome>>)
             ELSE o
-      o1 == Always(o0) IN
+      exp == IF Has(o.meta, "expected_results")
+             THEN {<<o.meta.expected_results[n][1], o.meta.expected_results[n][2]>> : n \in 1..Len(o.meta.expected_results)}
+             ELSE {}
+      o0b == IF Has(o.meta, "expected_results") /\ r.quiescent
+             THEN Chk(o0, CanonResults(o0) = exp, "C06", "ContentPreserved",
+                      <<"per-process results", CanonResults(o0), "the model assigns", exp>>)
+             ELSE o0
+      o1 == Always(o0b) IN
   IF r.quiescent THEN AtQuiescence(o1, r)
   ELSE IF o.meta.terminates THEN V(o1, "C03", "NoHang", "step budget exhausted before quiescence")
   ELSE o1
